@@ -69,7 +69,7 @@ def run(ctx: Ctx) -> None:
         "work = Python line events executed inside aiohttp/http_parser.py (sys.monitoring LINE, scoped to that file); "
         "work done inside C-level bytes/regex operations is not visible to this measure",
         "linear-work constants fitted on the unchanged tree with margin x4 (per call 48*bytes+32*retained+1240; per run "
-        "40*bytes+240*calls+1240): only gross (>= 4x) regressions at sizes <= 64 KiB are flagged",
+        "40*bytes+120*calls+1240): only gross (>= 4x) regressions at sizes <= 64 KiB are flagged",
         "retained bytes are read from the parser's private buffers (_tail, _lines, _chunk_tail, _trailer_lines); if they "
         "disappear the retention clause observes 0",
         "MustReject allows one read of slack for a line that never terminates (the parser notices on the next read)",
